@@ -78,7 +78,8 @@ def r_inventory(ctx, config='default'):
         ok = False
         for kind, p, ret in explore(ctx, fn, max_visits=1):
             for e in event_calls(p, 'into_iter'):
-                ok = ok or bool(calls_in(e[2][0], 'sorted_unstable')) and bool(calls_in(e[2][0], 'keys'))
+                from .. import guards as _g
+                ok = ok or _g.sorted_key_order(e[2][0])
         ctx.ob(rid, 'sorted-print:' + name, ok, 'module printer iterates `keys().sorted_unstable()`', fn.where())
 
 
